@@ -45,6 +45,13 @@ CHECKS = {
         "deterministic simulation: seeded op histories with disk/blob-store fault injection and simulated crash between stage and commit, reference-model oracle",
         "DESIGN.md §5 C20",
     ),
+    "C09": (
+        "fault_enumeration",
+        "Seeded op tapes (deliver / pass / poke / resolve) over 1-3 worldlines x 1-4 heads with poisonous intents (executor panic, undeclared access, cross-instance write, instance op, inapplicable op) aimed at seeded heads and passes, runtime pokes (frontier tick overflow, missing root instance, global tick overflow; hook H7) and trusted fault resolution. On every failed pass all top-level fields of the runtime, the provenance service and the engine must equal their pre-pass fingerprints except fault evidence; successful passes must follow the reference coordinator (canonical head order, admitted counts, +1 tick per committing head, +1 global tick, idle heads untouched); quarantine and resolution are checked on later passes. Failure kinds are enumerated, positions sampled; evidence, not proof.",
+        "Fingerprints are digests of the {:#?} rendering per top-level field (covers private indexes); fault scope is taken from the recorded fault, not prescribed.",
+        "deterministic simulation: seeded delivery/pass schedules with fault injection at arbitrary heads and passes, pre-pass fingerprint restoration oracle + reference coordinator",
+        "DESIGN.md §5 C09",
+    ),
     "C14": (
         "exploration",
         "A generated honest tick plus one violator program (omits exactly one read/write access it performs, writes another instance, emits an instance op, optionally panics) placed at seeded canonical positions, work units and workers (claim tapes); the commit must unwind with the matching violation and leave the pre-state untouched; an unflagged omitted write is a violation exactly when the guarded location's observable content changed (attribution completeness). Seeded search; evidence, not proof.",
